@@ -260,11 +260,16 @@ class Session:
         return None
 
     def close(self):
-        if getattr(self, "reader", None):
-            self.reader.cancel()
-        if self.sock:
-            self.sock.close()
-            self.sock = None
+        # the socket is closed only after its reader task has ended (see rebind below: a descriptor number must not be reused
+        # while the event loop still knows a reader for it)
+        rd, sock = getattr(self, "reader", None), self.sock
+        self.sock = None
+        if rd is not None and not rd.done():
+            rd.cancel()
+            if sock is not None:
+                rd.add_done_callback(lambda _f, s=sock: s.close())
+        elif sock is not None:
+            sock.close()
         if self.ctl:
             self.ctl.close()
             self.ctl = None
